@@ -1126,7 +1126,7 @@ func (w *world) planBatchFor(c *simChan) ([]*batchItemPlan, *mstate) {
 	// as separate groups (in class order of first appearance), which would make
 	// one call several mutations
 	class := AppendBatchClass(tp.Intn(3))
-	staged := map[uint64]bool{}
+	staged := &seenSet{}
 	var plans []*batchItemPlan
 	nItems := 1 + tp.Weighted([]int{5, 2, 1})
 	for i := 0; i < nItems; i++ {
@@ -1246,9 +1246,6 @@ func (w *world) planBatchFor(c *simChan) ([]*batchItemPlan, *mstate) {
 		p.item.Class = class
 		if p.wantOK {
 			if p.kind == "fresh" {
-				for _, r := range p.rows {
-					staged[r.ID] = true
-				}
 				ns.appendRows(p.rows)
 				ns.props = append(ns.props[:len(ns.props):len(ns.props)], p.prop)
 				changed = true
